@@ -218,6 +218,37 @@ func (g *gen) numCks(scale int64) []Ck {
 	return cs
 }
 
+// objOps: 1–3 Partial / Required calls, without keys or with one or two keys (field names of the shape, now and then a
+// name that is not in the shape).
+func (g *gen) objOps(s *Sch) []ObjOp {
+	n := 1 + g.r.Intn(3)
+	if g.r.Chance(55) {
+		n = 1
+	}
+	var ops []ObjOp
+	for i := 0; i < n; i++ {
+		op := ObjOp{Req: g.r.Bool()}
+		if g.r.Chance(55) {
+			nk := 1 + g.r.Intn(2)
+			for j := 0; j < nk; j++ {
+				k := s.Fields[g.r.Intn(len(s.Fields))].Name
+				if g.r.Chance(8) {
+					k = "nosuch"
+				}
+				dupKey := false
+				for _, kk := range op.Keys {
+					dupKey = dupKey || kk == k
+				}
+				if !dupKey {
+					op.Keys = append(op.Keys, k)
+				}
+			}
+		}
+		ops = append(ops, op)
+	}
+	return ops
+}
+
 func (g *gen) sizeCks() []Ck {
 	var cs []Ck
 	if g.r.Chance(55) {
@@ -908,6 +939,19 @@ func (g *gen) countFeatures(out *hx.Out, s *Sch) {
 		}
 		if s.K == "obj" {
 			out.Count("objmode:" + s.Mode)
+			if s.Part {
+				out.Count("objops:partial-flag")
+			}
+			for _, op := range s.Ops {
+				n := "partial"
+				if op.Req {
+					n = "required"
+				}
+				if len(op.Keys) > 0 {
+					n += "(keys)"
+				}
+				out.Count("objops:" + n)
+			}
 		}
 		walk(s.Elem, d+1)
 		walk(s.Key, d+1)
@@ -943,6 +987,15 @@ func corpusSchemas() []*Sch {
 		obj("strip", Field{"a", opt(str())}, Field{"b", intS("int")}),    // (c) optional field given null
 		&Sch{K: "obj", Mode: "strip", Fields: []Field{{"a", str()}, {"b", str()}}, Cks: []Ck{min2}}, // (d) Object.Min → minItems
 		&Sch{K: "obj", Mode: "strip", Fields: []Field{{"a", str()}, {"b", str()}}, Part: true},      // (e) Partial keeps required
+		// Partial / Required call histories: what Parse asks the object (isFieldOptional) the document must say too
+		&Sch{K: "obj", Mode: "strip", Fields: []Field{{"a", str()}}, Ops: []ObjOp{{}}},
+		&Sch{K: "obj", Mode: "strip", Fields: []Field{{"b", opt(str())}}, Ops: []ObjOp{{Req: true}}},
+		&Sch{K: "obj", Mode: "strict", Fields: []Field{{"a", str()}, {"c", &Sch{K: "bool"}}}, Ops: []ObjOp{{Keys: []string{"a"}}}},
+		&Sch{K: "obj", Mode: "loose", Fields: []Field{{"a", str()}, {"b", opt(str())}}, Ops: []ObjOp{{Req: true, Keys: []string{"b"}}}},
+		&Sch{K: "obj", Mode: "strip", Fields: []Field{{"a", str()}, {"b", opt(str())}}, Ops: []ObjOp{{Req: true}, {Keys: []string{"a"}}}},
+		&Sch{K: "obj", Mode: "strip", Fields: []Field{{"a", str()}, {"b", opt(str())}}, Ops: []ObjOp{{}, {Req: true, Keys: []string{"a"}}}},
+		&Sch{K: "obj", Mode: "strict", Fields: []Field{{"a", str()}, {"b", nul(str())}}, Ops: []ObjOp{{Req: true, Keys: []string{"b"}}, {}, {Req: true, Keys: []string{"nosuch", "a"}}}},
+		lazy("--", &Sch{K: "obj", Mode: "strip", Fields: []Field{{"b", opt(str())}}, Ops: []ObjOp{{Req: true}}}),
 		&Sch{K: "arr", Items: []*Sch{str()}},                             // (f) single-item Array
 		&Sch{K: "rec", Key: &Sch{K: "enum", Strs: []string{"x", "y"}}, Elem: intS("int")}, // (g) exhaustive record
 		&Sch{K: "union", Items: []*Sch{str(), {K: "nil"}}},               // (h) union with Nil
